@@ -232,6 +232,12 @@ def lblPart (label : Option Str) (al : Nat) : Str :=
   | some l => l ++ spaces (al + 1)
   | none => []
 
+/-- the text of the output variable with its `=` -/
+def outPart (output : Option Str) (a b : Nat) : Str :=
+  match output with
+  | some o => o ++ (spaces a ++ '=' :: spaces b)
+  | none => []
+
 /-- label condition of `InstrOK` -/
 def LabelOK (label : Option Str) : Prop := ∀ l, label = some l → ∃ n, l = ':' :: n ∧ NameOK n
 
@@ -284,9 +290,7 @@ theorem parseCommandLine_cmd (label : Option Str) (al : Nat) (output : Option St
     (hc : NameOK c ∧ (output = none → NoEq c ∧ (label = none → FirstOK c)))
     (hargs : args ≠ some []) (ht : EolTail t) :
     parseCommandLine (lblPart label al ++
-        ((match output with
-          | some o => o ++ (spaces a ++ '=' :: spaces b)
-          | none => []) ++ (c ++ (renderArgs chs 0 (args.getD []) ++ t)))) =
+        (outPart output a b ++ (c ++ (renderArgs chs 0 (args.getD []) ++ t)))) =
       .ok (.script { label := label, output := output, command := some c, args := args }) := by
   have hbnd := renderArgs_bnd chs 0 (args.getD []) ht
   cases output with
@@ -300,7 +304,7 @@ theorem parseCommandLine_cmd (label : Option Str) (al : Nat) (output : Option St
           (c ++ (renderArgs chs 0 (args.getD []) ++ t))) =
         lblPart label al ++ x :: (o' ++ (spaces a ++ '=' ::
           (spaces b ++ (c ++ (renderArgs chs 0 (args.getD []) ++ t))))) := by simp
-    simp only []
+    simp only [outPart]
     rw [heq, parseCommandLine_eq _ (by simp), hm]
     simp only []
     rw [← List.cons_append, findOAC_output_cmd m (x :: o') a b c _ ho1 ho2 hc.1 hbnd]
@@ -314,7 +318,7 @@ theorem parseCommandLine_cmd (label : Option Str) (al : Nat) (output : Option St
     obtain ⟨m, hm⟩ := findLabel_lblPart label al x
       (c' ++ (renderArgs chs 0 (args.getD []) ++ t)) hl
       (fun h => ⟨by simpa [FirstOK] using (hc3 h).1, hx.2.2.2.2⟩)
-    simp only [List.nil_append]
+    simp only [outPart, List.nil_append]
     rw [List.cons_append, parseCommandLine_eq _ (by simp), hm]
     simp only []
     rw [← List.cons_append, findOAC_cmd m (x :: c') _ hc1 hc2 hbnd
@@ -322,5 +326,115 @@ theorem parseCommandLine_cmd (label : Option Str) (al : Nat) (output : Option St
     simp only []
     rw [parseArguments_afterTok_render chs args hargs ht]
     simp
+
+/-- general form: whatever follows the command is handed to `parseArguments` -/
+theorem parseCommandLine_cmd_gen (label : Option Str) (al : Nat) (output : Option Str) (a b : Nat)
+    (c tail : Str)
+    (hl : LabelOK label)
+    (ho : ∀ o, output = some o → NameOK o ∧ NoEq o ∧ (label = none → FirstOK o))
+    (hc : NameOK c ∧ (output = none → NoEq c ∧ (label = none → FirstOK c)))
+    (hb : Bnd false tail) (hn : NoEqAhead (afterTok tail)) :
+    parseCommandLine (lblPart label al ++ (outPart output a b ++ (c ++ tail))) =
+      match parseArguments (afterTok tail) with
+      | .error e => .error e
+      | .ok args =>
+        .ok (.script { label := label, output := output, command := some c, args := args }) := by
+  cases output with
+  | some o =>
+    obtain ⟨ho1, ho2, ho3⟩ := ho o rfl
+    obtain ⟨x, o', rfl, hx⟩ := nameOK_head ho1
+    obtain ⟨m, hm⟩ := findLabel_lblPart label al x
+      (o' ++ (spaces a ++ '=' :: (spaces b ++ (c ++ tail)))) hl
+      (fun h => ⟨by simpa [FirstOK] using (ho3 h).1, hx.2.2.2.2⟩)
+    have heq : lblPart label al ++ ((x :: o' ++ (spaces a ++ '=' :: spaces b)) ++ (c ++ tail)) =
+        lblPart label al ++ x :: (o' ++ (spaces a ++ '=' :: (spaces b ++ (c ++ tail)))) := by simp
+    simp only [outPart]
+    rw [heq, parseCommandLine_eq _ (by simp), hm]
+    simp only []
+    rw [← List.cons_append, findOAC_output_cmd m (x :: o') a b c _ ho1 ho2 hc.1 hb]
+    simp only []
+    cases parseArguments (afterTok tail) <;> simp
+  | none =>
+    obtain ⟨hc1, hc2⟩ := hc
+    obtain ⟨hc2, hc3⟩ := hc2 rfl
+    obtain ⟨x, c', rfl, hx⟩ := nameOK_head hc1
+    obtain ⟨m, hm⟩ := findLabel_lblPart label al x (c' ++ tail) hl
+      (fun h => ⟨by simpa [FirstOK] using (hc3 h).1, hx.2.2.2.2⟩)
+    simp only [outPart, List.nil_append]
+    rw [List.cons_append, parseCommandLine_eq _ (by simp), hm]
+    simp only []
+    rw [← List.cons_append, findOAC_cmd m (x :: c') _ hc1 hc2 hb hn]
+    simp only []
+    cases parseArguments (afterTok tail) <;> simp
+
+/-! ### a malformed argument after well-formed ones -/
+
+theorem parseArgsLoop_step_err (cac : Bool) (l r a : Str) (e : PErr)
+    (h1 : parseNextValue (argFlags cac) l = .ok (r, some a)) (h2 : r.length < l.length)
+    (h3 : parseArgsLoop cac r = .error e) : parseArgsLoop cac l = .error e := by
+  rw [parseArgsLoop, h1]
+  simp [h2, h3]
+
+theorem renderArgs_space_bnd (ch : List (Nat × Bool)) (k : Nat) (as : List Str) (j : Str) :
+    ∃ r, renderArgs ch k as ++ ' ' :: j = ' ' :: r := by
+  cases as with
+  | nil => exact ⟨j, by simp [renderArgs_nil]⟩
+  | cons a as => rw [renderArgs_cons]; exact ⟨_, rfl⟩
+
+theorem parseArgsLoop_render_err (ch : List (Nat × Bool)) (args : List Str) (j : Str) (e : PErr)
+    (h : parseArgsLoop false (' ' :: j) = .error e) :
+    ∀ k, parseArgsLoop false (renderArgs ch k args ++ ' ' :: j) = .error e := by
+  induction args with
+  | nil => intro k; simpa [renderArgs_nil] using h
+  | cons a as ih =>
+    intro k
+    obtain ⟨r0, hr0⟩ := renderArgs_space_bnd ch (k + 1) as j
+    obtain ⟨r, hr, hcase⟩ := parseNextValue_renderArg (argChoice ch k).2 a
+      (renderArgs ch (k + 1) as ++ ' ' :: j) (by rw [hr0]; exact Bnd.space _)
+    have hr' : r = renderArgs ch (k + 1) as ++ ' ' :: j := by
+      rcases hcase with rfl | rfl
+      · rfl
+      · rw [hr0]; exact afterTok_space _
+    subst hr'
+    have heq : renderArgs ch k (a :: as) ++ ' ' :: j =
+        spaces ((argChoice ch k).1 + 1) ++
+          (renderArg (argChoice ch k).2 a ++ (renderArgs ch (k + 1) as ++ ' ' :: j)) := by
+      simp [renderArgs]
+    refine parseArgsLoop_step_err false _ _ a e ?_ ?_ (ih (k + 1))
+    · rw [heq, parseNextValue_spaces]; exact hr
+    · rw [heq]
+      simp only [List.length_append, spaces, List.length_replicate]
+      omega
+
+theorem noEqAhead_renderArgs_junk (ch : List (Nat × Bool)) (k : Nat) (as : List Str) (j : Str)
+    (h : NoEqAhead j) : NoEqAhead (renderArgs ch k as ++ j) := by
+  cases as with
+  | nil => simpa [renderArgs_nil] using h
+  | cons a as =>
+    rw [renderArgs_cons]
+    obtain ⟨c, r, hr, h1, h2, _⟩ := renderArg_head (argChoice ch k).2 a
+    rw [hr]
+    simp only [List.cons_append, List.append_assoc]
+    exact noEqAhead_space (noEqAhead_spaces _ (noEqAhead_cons c _ h1 h2))
+
+/-- a command line whose well-formed arguments are followed by ` junk` fails with the error of
+    the junk -/
+theorem parseCommandLine_cmd_err (label : Option Str) (al : Nat) (output : Option Str) (a b : Nat)
+    (c : Str) (chs : List (Nat × Bool)) (args : List Str) (j : Str) (e : PErr)
+    (hl : LabelOK label)
+    (ho : ∀ o, output = some o → NameOK o ∧ NoEq o ∧ (label = none → FirstOK o))
+    (hc : NameOK c ∧ (output = none → NoEq c ∧ (label = none → FirstOK c)))
+    (hj : NoEqAhead j) (he : parseArgsLoop false (' ' :: j) = .error e) :
+    parseCommandLine (lblPart label al ++ (outPart output a b ++
+        (c ++ (renderArgs chs 0 args ++ ' ' :: j)))) = .error e := by
+  obtain ⟨r0, hr0⟩ := renderArgs_space_bnd chs 0 args j
+  have hb : Bnd false (renderArgs chs 0 args ++ ' ' :: j) := by rw [hr0]; exact Bnd.space _
+  have hat : afterTok (renderArgs chs 0 args ++ ' ' :: j) = renderArgs chs 0 args ++ ' ' :: j := by
+    rw [hr0]; exact afterTok_space _
+  rw [parseCommandLine_cmd_gen label al output a b c _ hl ho hc hb
+    (by rw [hat]; exact noEqAhead_renderArgs_junk chs 0 args _ (noEqAhead_space hj))]
+  rw [hat]
+  unfold parseArguments parseArgumentsWith
+  rw [parseArgsLoop_render_err chs args j e he 0]
 
 end Duck
